@@ -446,7 +446,7 @@ fn check_node(w: &mut World, s: &S, p: [f64; 3], cx: &mut Cx, depth: usize) -> C
                     let mut q2 = q;
                     q2[k] += sg * d;
                     if let Some(w2) = w.lib(inner, q2) {
-                        if (w2 - want).abs() > 20.0 * d * inner.lip().max(1.0) {
+                        if (w2 - want).abs() > 3.0 * d * inner.lip().max(1.0) {
                             cx.ev.count("transform_points_next_to_a_discontinuity_of_the_inner_shape");
                             return Ok(());
                         }
